@@ -386,6 +386,13 @@ func (c *Ctx) Finish() int {
 			fmt.Printf("  (%d further violations not listed)\n", len(c.viol)-n)
 		}
 	}
+	if dbg := os.Getenv("VERIF_DEBUG"); dbg != "" {
+		f, _ := os.Create(dbg)
+		for _, v := range c.viol {
+			fmt.Fprintf(f, "%s\t%s\n", v.Sig, v.Desc)
+		}
+		f.Close()
+	}
 	c.Ev.Violations = len(c.viol)
 	c.Ev.write(time.Since(c.Start))
 	fmt.Printf("%s %s: evaluations=%d states=%d transitions=%d traces=%d outcomes=%d exhaustive=%v violations=%d known=%d wall=%.1fs\n",
